@@ -801,6 +801,8 @@ def case_c08_roundtrip(rng, idx, params):
         spec = gen_spec(rng, kind=slot)
     else:
         spec = {"kind": "Amorph", "analysis": slot, "params": ANALYSIS_PARAMS[slot](rng)}
+        if rng.random() < 0.5:   # framework arguments of the wrapper itself, falsy values included
+            spec["params"]["round_value"] = rng.choice([0, 0, 2, 6])
     base_tf, pool = gen_tf_pool(rng)
     tf = rng.choice(pool) if rng.random() < 0.5 else None
     full = rng.random() < 0.4
